@@ -381,7 +381,7 @@ def check_iform(case, ctx):
         tm2, _ = t_model_from(case, precision_factor=pf, random_state=rs)
         np.random.seed((case["seed"] + 12345) % (2**32))
         c2 = virocon.IFORMContour(tm2, alpha, n_points=npts)
-        if not np.array_equal(np.asarray(c2.coordinates), X):
+        if not np.allclose(np.asarray(c2.coordinates), X, rtol=1e-12, atol=0):
             dev = float(np.max(np.abs(np.asarray(c2.coordinates) - X)))
             ctx.violation("iform:not_reproducible_with_random_state", f"random_state={rs}: two IFORM contours of identically configured models differ by up to {dev!r}")
     # agreement with the exactly transformed base contour in probability space
